@@ -1,4 +1,5 @@
 import BstreamVerif.Drv.Range
+import BstreamVerif.Drv.Cursor
 /-
 bsmodel: reads the harness file (op / impl lines grouped in cases) on stdin, prints for every `op`
 line the model's answer (`model …`) and the monitor verdict on the implementation's answer.
@@ -11,6 +12,7 @@ open BstreamVerif.Drv
 def statelessOp (suite : String) (ws impl : List String) : Option (String × String) :=
   match suite with
   | "range" => some (RangeDrv.op ws, RangeDrv.monitor ws impl)
+  | "cursor" => some (CursorDrv.op ws, CursorDrv.monitor ws impl)
   | _ => none
 
 /-- stateful suites: header, body lines (each already split) → output lines -/
